@@ -1,6 +1,22 @@
-//! Cross-build block digests (C18, C19) and the human readable dump used by replays.
-use crate::canon::canon;
-use crate::view::{run_lexer, Outcome};
+//! Cross-build block digests (C18, C19), history and placement checks, and the human readable
+//! dump used by replays.
+//!
+//! `digest`: every binary walks the same deterministic enumeration (space, level, chunk of
+//! parent words) and writes one 64-bit FNV-1a digest per chunk over the canonical dumps of the
+//! chunk's inputs. The driver diffs the lists of two builds; on a mismatch it asks both for the
+//! per-input digests of that chunk (`digest-chunk`) and the first differing input is the witness.
+
+use crate::canon::{canon, fnv1a, Canon};
+use crate::explore::{hash64, Space};
+use crate::spaces::{self, Tier};
+use crate::view::{cfg_hash, run_lexer, Outcome};
+use std::collections::HashMap;
+use std::sync::atomic::{AtomicU64, Ordering};
+use std::sync::Mutex;
+
+pub const PANIC_DIGEST: u64 = 0xDEAD_0000_0000_0001;
+pub const BUDGET_DIGEST: u64 = 0xDEAD_0000_0000_0002;
+const CHUNK_PARENTS: u64 = 512;
 
 pub fn print_dump(input: &str) {
     match run_lexer(input) {
@@ -18,11 +34,19 @@ pub fn print_dump(input: &str) {
                             "  tok {i:3} {:?}/{:?} bytes {}..{} chars {}..{} {}:{}-{}:{} {:?} {:?}",
                             t.ty, t.ch, t.start, end, t.cstart, t.cstop, t.line, t.col, t.end_line, t.end_col, t.payload, txt
                         );
+                        if i > 400 {
+                            println!("  ... ({} tokens)", c.toks.len());
+                            break;
+                        }
                     }
                     for e in &r.errors {
                         println!(
                             "  err {:?} byte {} char {} {}:{} last_token {:?}",
-                            e.error_kind(), e.at_byte_offset(), e.at_char_offset(), e.on_line(), e.at_column(),
+                            e.error_kind(),
+                            e.at_byte_offset(),
+                            e.at_char_offset(),
+                            e.on_line(),
+                            e.at_column(),
                             e.last_token().map(|t| t.get())
                         );
                     }
@@ -33,6 +57,297 @@ pub fn print_dump(input: &str) {
     }
 }
 
-pub fn main(_args: &[String]) {
-    unimplemented!()
+fn arg_value(args: &[String], key: &str) -> Option<String> {
+    args.iter().position(|a| a == key).and_then(|i| args.get(i + 1).cloned())
+}
+
+/// digest of one input under this build (`strip` removes MacroSep tokens first)
+pub fn input_digest(src: &str, strip: bool, scratch: &mut Vec<u8>) -> u64 {
+    input_digest_n(src, strip, scratch).0
+}
+
+/// (digest, number of tokens)
+pub fn input_digest_n(src: &str, strip: bool, scratch: &mut Vec<u8>) -> (u64, usize) {
+    match run_lexer(src) {
+        Outcome::Ok(r) => {
+            if r.verif.budget_exceeded {
+                return (BUDGET_DIGEST, 0);
+            }
+            match std::panic::catch_unwind(std::panic::AssertUnwindSafe(|| canon(&r))) {
+                Ok(c) => {
+                    let c: Canon = if strip { c.strip_macro_sep() } else { c };
+                    (c.digest(scratch), c.toks.len())
+                }
+                Err(_) => (PANIC_DIGEST, 0),
+            }
+        }
+        _ => (PANIC_DIGEST, 0),
+    }
+}
+
+fn decode(mut idx: u64, k: u64, n: usize, out: &mut Vec<u16>) {
+    out.clear();
+    out.resize(n, 0);
+    for i in (0..n).rev() {
+        out[i] = (idx % k) as u16;
+        idx /= k;
+    }
+}
+
+/// the inputs of chunk `c` of level `n` of a space, in order
+fn for_chunk(space: &Space, n: usize, c: u64, mut f: impl FnMut(&str)) {
+    let k = space.atoms.len() as u64;
+    let mut buf = String::new();
+    if n == 0 {
+        buf.push_str(&space.prefix);
+        buf.push_str(&space.suffix);
+        f(&buf);
+        return;
+    }
+    let parents = k.pow((n - 1) as u32);
+    let mut word = Vec::new();
+    for p in c * CHUNK_PARENTS..((c + 1) * CHUNK_PARENTS).min(parents) {
+        decode(p, k, n - 1, &mut word);
+        buf.clear();
+        buf.push_str(&space.prefix);
+        for &a in &word {
+            buf.push_str(&space.atoms[a as usize]);
+        }
+        let plen = buf.len();
+        for a in &space.atoms {
+            buf.truncate(plen);
+            buf.push_str(a);
+            buf.push_str(&space.suffix);
+            f(&buf);
+        }
+    }
+}
+
+fn chunks_of(space: &Space, n: usize) -> u64 {
+    if n == 0 {
+        1
+    } else {
+        let parents = (space.atoms.len() as u64).pow((n - 1) as u32);
+        parents.div_ceil(CHUNK_PARENTS)
+    }
+}
+
+pub fn digest_spaces(which: &str, tier: Tier) -> Vec<Space> {
+    let names: Vec<&str> = which.split(',').collect();
+    let mut v = spaces::sigma_spaces(&names, tier);
+    // grammar programs as an explicit list are covered by the corpus list mode below
+    v.retain(|s| !s.atoms.is_empty());
+    v
+}
+
+pub fn main(args: &[String]) {
+    let cmd = args.get(1).map(String::as_str).unwrap_or("");
+    let tier = match arg_value(args, "--tier").as_deref() {
+        Some("thorough") => Tier::Thorough,
+        _ => Tier::Quick,
+    };
+    let strip = args.iter().any(|a| a == "--strip-sep");
+    let which = arg_value(args, "--spaces").unwrap_or_else(|| "S1,S2,S3,S9".into());
+    let sp = digest_spaces(&which, tier);
+    let threads: usize = arg_value(args, "--threads").and_then(|s| s.parse().ok()).unwrap_or(16);
+    match cmd {
+        "digest" => {
+            let out = arg_value(args, "--out").expect("--out");
+            // work items
+            let mut items: Vec<(usize, usize, u64)> = Vec::new();
+            for (si, s) in sp.iter().enumerate() {
+                for n in s.min_len..=s.max_len {
+                    for c in 0..chunks_of(s, n) {
+                        items.push((si, n, c));
+                    }
+                }
+            }
+            let next = AtomicU64::new(0);
+            let results: Mutex<Vec<(usize, usize, u64, u64, u64, u64)>> = Mutex::new(Vec::with_capacity(items.len()));
+            let total_inputs = AtomicU64::new(0);
+            let distinct = crate::explore::Distinct::new(if tier == Tier::Quick { 28 } else { 33 });
+            let distinct_nontrivial = AtomicU64::new(0);
+            let t0 = std::time::Instant::now();
+            std::thread::scope(|sc| {
+                for _ in 0..threads {
+                    sc.spawn(|| {
+                        let mut scratch = Vec::new();
+                        let mut local = Vec::new();
+                        let mut cnt = 0u64;
+                        loop {
+                            let i = next.fetch_add(1, Ordering::Relaxed) as usize;
+                            if i >= items.len() {
+                                break;
+                            }
+                            let (si, n, c) = items[i];
+                            let mut acc: Vec<u8> = Vec::new();
+                            let mut k = 0u64;
+                            let mut special = 0u64;
+                            for_chunk(&sp[si], n, c, |input| {
+                                let (d, ntok) = input_digest_n(input, strip, &mut scratch);
+                                if d == PANIC_DIGEST || d == BUDGET_DIGEST {
+                                    special += 1;
+                                }
+                                if ntok >= 3 && distinct.first_time(input) {
+                                    distinct_nontrivial.fetch_add(1, Ordering::Relaxed);
+                                }
+                                acc.extend_from_slice(&d.to_le_bytes());
+                                k += 1;
+                            });
+                            cnt += k;
+                            local.push((si, n, c, fnv1a(&acc), k, special));
+                        }
+                        total_inputs.fetch_add(cnt, Ordering::Relaxed);
+                        results.lock().unwrap().extend(local);
+                    });
+                }
+            });
+            let mut res = results.into_inner().unwrap();
+            res.sort_unstable();
+            let mut text = String::new();
+            for (si, n, c, d, k, special) in &res {
+                text.push_str(&format!("{}\t{}\t{}\t{:016x}\t{}\t{}\n", sp[*si].name, n, c, d, k, special));
+            }
+            std::fs::write(&out, text).expect("write digests");
+            println!(
+                "lexmc digest spaces={} chunks={} inputs={} distinct_nontrivial={} wall={:.1}s",
+                which,
+                res.len(),
+                total_inputs.load(Ordering::Relaxed),
+                distinct_nontrivial.load(Ordering::Relaxed),
+                t0.elapsed().as_secs_f64()
+            );
+        }
+        "digest-chunk" => {
+            let name = arg_value(args, "--space").expect("--space");
+            let n: usize = arg_value(args, "--level").and_then(|s| s.parse().ok()).expect("--level");
+            let c: u64 = arg_value(args, "--chunk").and_then(|s| s.parse().ok()).expect("--chunk");
+            let space = sp.iter().find(|s| s.name == name).expect("space");
+            let mut scratch = Vec::new();
+            for_chunk(space, n, c, |input| {
+                let d = input_digest(input, strip, &mut scratch);
+                println!("{:016x}\t{}", d, serde_json::to_string(input).unwrap());
+            });
+        }
+        "digest-list" => {
+            // one digest per line for the inputs of a JSON array file
+            let path = arg_value(args, "--inputs").expect("--inputs");
+            let inputs: Vec<String> = serde_json::from_str(&std::fs::read_to_string(path).expect("read")).expect("json");
+            let mut scratch = Vec::new();
+            for i in &inputs {
+                println!("{:016x}", input_digest(i, strip, &mut scratch));
+            }
+        }
+        "history-inputs" => {
+            let n: usize = arg_value(args, "--count").and_then(|s| s.parse().ok()).unwrap_or(200);
+            println!("{}", serde_json::to_string(&history_inputs(n)).unwrap());
+        }
+        "history" => {
+            // all ordered pairs (x, y): lex(x) then lex(y) on this thread; dump(y) must equal the
+            // digest a fresh process computed for y (refs). Then the same inputs on 16 OS threads
+            // running freely (a sample of schedules, labelled as such by the driver).
+            let inputs: Vec<String> =
+                serde_json::from_str(&std::fs::read_to_string(arg_value(args, "--inputs").expect("--inputs")).expect("read")).expect("json");
+            let refs: Vec<String> =
+                serde_json::from_str(&std::fs::read_to_string(arg_value(args, "--refs").expect("--refs")).expect("read")).expect("json");
+            let refs: Vec<u64> = refs.iter().map(|r| u64::from_str_radix(r, 16).expect("hex")).collect();
+            assert_eq!(inputs.len(), refs.len());
+            let mut scratch = Vec::new();
+            let mut pairs = 0u64;
+            let mut bad: Vec<(String, String)> = Vec::new();
+            for (i, x) in inputs.iter().enumerate() {
+                for (j, y) in inputs.iter().enumerate() {
+                    let _ = input_digest(x, strip, &mut scratch);
+                    let d = input_digest(y, strip, &mut scratch);
+                    pairs += 1;
+                    if d != refs[j] && bad.len() < 5 {
+                        bad.push((x.clone(), y.clone()));
+                    }
+                    let _ = i;
+                }
+            }
+            // free running threads
+            let conc_bad: Mutex<Vec<String>> = Mutex::new(Vec::new());
+            let runs = AtomicU64::new(0);
+            std::thread::scope(|sc| {
+                for t in 0..threads {
+                    let inputs = &inputs;
+                    let refs = &refs;
+                    let conc_bad = &conc_bad;
+                    let runs = &runs;
+                    sc.spawn(move || {
+                        let mut scratch = Vec::new();
+                        let n = inputs.len();
+                        for round in 0..8usize {
+                            for k in 0..n {
+                                let j = (k * (2 * t + 1) + round * 7 + t) % n;
+                                let d = input_digest(&inputs[j], strip, &mut scratch);
+                                runs.fetch_add(1, Ordering::Relaxed);
+                                if d != refs[j] {
+                                    let mut b = conc_bad.lock().unwrap();
+                                    if b.len() < 5 {
+                                        b.push(inputs[j].clone());
+                                    }
+                                }
+                            }
+                        }
+                    });
+                }
+            });
+            let doc = serde_json::json!({
+                "inputs": inputs.len(),
+                "ordered_pairs": pairs,
+                "pair_mismatches": bad,
+                "free_running_threads": threads,
+                "free_running_lexer_runs": runs.load(Ordering::Relaxed),
+                "free_running_mismatches": conc_bad.into_inner().unwrap(),
+            });
+            println!("{}", serde_json::to_string(&doc).unwrap());
+        }
+        _ => unreachable!(),
+    }
+}
+
+// ---------------------------------------------------------------------------------------------
+// C19 part 2: histories. lex(x) then lex(y) on one thread must give for y the dump a fresh
+// process gives.
+
+pub fn history_inputs(count: usize) -> Vec<String> {
+    // shortest representative of each of the most frequent end configurations of S1 u S2 (N = 3)
+    let mut seen: HashMap<u64, (u64, String)> = HashMap::new();
+    for base in [spaces::S1, spaces::S2, spaces::S4] {
+        let space = Space::new("h", base, 3);
+        for n in 0..=3usize {
+            for c in 0..chunks_of(&space, n) {
+                for_chunk(&space, n, c, |input| {
+                    if let Outcome::Ok(r) = run_lexer(input) {
+                        let h = cfg_hash(&r);
+                        let e = seen.entry(h).or_insert((0, input.to_string()));
+                        e.0 += 1;
+                        if (input.len(), input) < (e.1.len(), e.1.as_str()) {
+                            e.1 = input.to_string();
+                        }
+                    }
+                });
+            }
+        }
+    }
+    let mut v: Vec<(u64, String)> = seen.into_values().collect();
+    v.sort_by(|a, b| b.0.cmp(&a.0).then(a.1.cmp(&b.1)));
+    let mut out: Vec<String> = v.into_iter().take(count).map(|x| x.1).collect();
+    // plus inputs that exercise the lazily used tables and the literal buffer
+    for s in [
+        "data a; x='a''b'; run;",
+        "%macro m(a,b=1); %let x=%eval(&a+1); %mend;",
+        "datalines4;\n1 2\n;;;;",
+        "x=0ffx; y=1e5; z='41'x;",
+        "%put %sysfunc(f(1.5,2),best.);",
+        "\u{feff}é='€';",
+    ] {
+        out.push(s.to_string());
+    }
+    out.sort();
+    out.dedup();
+    let _ = hash64(&0u8);
+    out
 }
